@@ -403,13 +403,15 @@ CHECKS = {"C02": c02}
 CTLS = [chr(c) for c in list(range(1, 9)) + [11, 12] + list(range(14, 32)) + [127]]
 STATUS = {
     "ok": ["200 OK", "404 Not Found", "200 ", "201 Created caf\xe9", "299 \tWeird Reason"],
-    "cr": ["200 OK\rX", "200\rOK", "200 OK\r"],
-    "lf": ["200 OK\nX", "200 OK\n", "200\nOK"],
-    "nul": ["200 O\x00K", "200 OK\x00"],
-    "inject": ["200 OK\r\nX-Injected: yes", "200 OK\r\n\r\n<html>", "200 OK\r\nContent-Length: 0\r\n\r\nHTTP/1.1 200 OK"],
+    # (also directly against the numeric code, where int() / str.split() would strip them)
+    "cr": ["200 OK\rX", "200\rOK", "200 OK\r", "200\r OK", "\r200 OK"],
+    "lf": ["200 OK\nX", "200 OK\n", "200\nOK", "200\n folded", "\n200 OK"],
+    "nul": ["200 O\x00K", "200 OK\x00", "200\x00 OK"],
+    "inject": ["200 OK\r\nX-Injected: yes", "200 OK\r\n\r\n<html>", "200 OK\r\nContent-Length: 0\r\n\r\nHTTP/1.1 200 OK",
+               "200\r\n OK", "200\r\n\r\n <html>", "\r\n200 OK", "200\r\n X-Injected: yes"],
     "nonlatin1": ["200 ĀK", "200 OK €"],
     "nonnumeric": ["OK 200", "abc", "2x0 OK"],
-    "ctl": ["200 O\x01K", "200 \x7f", "200 OK\x0b"],
+    "ctl": ["200 O\x01K", "200 \x7f", "200 OK\x0b", "200\x0b OK", "\x0c200 OK", "200\x1c OK"],
 }
 NAMES = {
     "tok": ["X-App", "Content-Type", "x-1", "X_Under", "ETag", "Set-Cookie", "!#$%&'*+-.^_`|~Az09"],
